@@ -42,7 +42,7 @@ RULE = (
 ASSUMPTIONS = [
     "the greedy next action is the arg-max of the ONLINE network's expected value (double-DQN reading of 'greedy next action'); the source distribution is the TARGET network's distribution for that action",
     "batches have the shapes the AgileRL replay buffers produce: obs (B,d), action/reward/done/weights/idxs (B,1), float32 (checked against a real PrioritizedReplayBuffer sample in every e2e task); agent.batch_size equals the number of rows",
-    "mass tolerance 1e-5*max(1,mass), mean tolerance 1e-4*(v_max-v_min), projection-vs-reference tolerance 1e-4 (float32 implementation vs float64 reference on float32 inputs)",
+    "mass tolerance 1e-5*max(1,mass), mean tolerance 1e-4*(v_max-v_min), projection-vs-reference tolerance 1e-4, priority tolerance 2e-4*max(1,|cross-entropy|) (float32 implementation vs float64 reference on float32 inputs; largest deviation measured on the unchanged tree 7e-5)",
     "the reference projection is the triangular-kernel (C51) projection onto linspace(v_min,v_max,atoms) computed in float64; 'the online distribution' in the cross-entropy is accepted as either log_softmax (actor(..., log=True)) or log of the clamped softmax (actor(..., q=False))",
     "dark (zero-mass) neighbour rows are measuring instruments, not lattice points; they are not counted as evaluations",
     "e2e: n-step rows pair the (reward,done) list with itself rotated by len//3+1 (not the full square of pairs); rows whose online greedy action is ambiguous within 1e-6*range accept either action",
@@ -53,7 +53,7 @@ ATOMS_Q = [2, 3, 5, 11, 51]
 RANGES_Q = [[-1.0, 1.0], [0.0, 10.0], [-10.0, 10.0], [-100.0, 100.0], [0.1, 0.7], [-0.3, 0.3]]
 GAMMAS_Q = [0.0, 0.5, 0.99, 1.0]
 KS_Q = [1, 3]
-ATOMS_T = [2, 3, 4, 5, 7, 11, 21, 51, 101]
+ATOMS_T = [2, 3, 4, 5, 7, 11, 21, 51, 71]
 RANGES_T = RANGES_Q + [[0.0, 200.0], [-1.0, 0.0]]
 GAMMAS_T = [0.0, 0.5, 0.9, 0.99, 1.0]
 KS_T = [1, 3]
@@ -463,8 +463,7 @@ def run_stub(task):
                     p.evaluations += 1
                     culprits.append((pt, e1))
             for pt, e1 in culprits:
-                cls = "every-point" if len(culprits) == len(pts) else eclass(pt)
-                p.viol(f"Rainbow/_dqn_loss/exception/{type(e1).__name__}/{cls}", f"{describe(pt)} (alone between two zero-mass rows): {e1!r}", rp)
+                p.viol(f"Rainbow/_dqn_loss/exception/{type(e1).__name__}/{eclass(pt)}", f"{describe(pt)} (alone between two zero-mass rows): {e1!r}", rp)
             if not culprits:
                 p.viol(f"Rainbow/_dqn_loss/exception/{type(e).__name__}/batch-only", f"batch of {len(pts)} points starting at [{describe(pts[0])}]: {e!r}", rp)
             p.dg(ci, "exc", type(e).__name__)
@@ -624,7 +623,7 @@ def run_e2e(task):
                                        + (f" n-step reward={float(rews[nri][2])!r} n-done={nd}" if nexp is not None else "")
                                        + f": new_priority-prior_eps={got!r}, reference cross-entropy={adm[0]!r}", rp, observed=float(got), expected=adm[0])
                             p.out(["e2e", N, mode, variant, d, rkind(kind)])
-                        if bi == 0 and variant == "peaked" and k == task["ks"][-1]:
+                        if bi == 0 and variant == "peaked" and k == task["ks"][-1] and mode == "combined":
                             p.sample({"config": cfg, "mode": mode, "n_step": k, "weights": variant, "rewards": f64(exp["reward"]).reshape(-1).tolist(),
                                       "dones": f64(exp["done"]).reshape(-1).tolist(), "priorities": prio.tolist(),
                                       "reference_ce": [sum(t[r][0] for t in terms) for r in range(B)]})
